@@ -31,7 +31,12 @@ def DATE(
     # Excel starts counting at 1 and today is inclusive, thus -2
     delta = relativedelta(
         years=year - 1900, months=int(month) - 1, days=int(day) - 1)
-    result = utils.EXCEL_EPOCH + delta
+    try:
+        result = utils.EXCEL_EPOCH + delta
+    except (ValueError, OverflowError):
+        # Carried past the last representable date.
+        raise xlerrors.NumExcelError(
+            f'Date {year}-{month}-{day} is out of range')
 
     if result < utils.EXCEL_EPOCH:
         raise xlerrors.NumExcelError(
